@@ -294,7 +294,8 @@ pub fn shard(tier: Tier, i: usize, n: usize, private_net: bool) -> i32 {
         let (ty2, seq2) = (*ty, seq.clone());
         let Some(viol) = e4::block_on_deadline(2, e4::CASE_DEADLINE, move || async move { run_sequence(ty2, &seq2).await }) else {
             let names: Vec<&str> = seq.iter().map(|o| OPS[*o as usize]).collect();
-            println!("{}", json!({"case": k, "findings": [["runtime-hung", format!("{} socket, operations {:?}: the sequence did not come back within {} s although every wait in it has a {} s horizon: a thread of the socket's runtime is blocked for ever", ty.name(), names, e4::CASE_DEADLINE.as_secs(), e4::HORIZON.as_secs())]]}));
+            let (cl, msg) = e4::hung_or_panicked("runtime-hung".to_string(), format!("{} socket, operations {:?}: the sequence did not come back within {} s although every wait in it has a {} s horizon: a thread of the socket's runtime is blocked for ever", ty.name(), names, e4::CASE_DEADLINE.as_secs(), e4::HORIZON.as_secs()));
+            println!("{}", json!({"case": k, "findings": [[cl, msg]]}));
             let rest = cases.iter().enumerate().filter(|(j, _)| j % n == i && *j > k).count() as u64;
             println!("{}", json!({"skipped": rest + skipped, "after_failures": failing + 1, "budget_exhausted": false}));
             use std::io::Write;
